@@ -22,6 +22,7 @@ EXPLANATION = (
     "path= its own output directory. R5: every page (index or not) copies its copy_subdir directories "
     "and its files - no early return before the copy loops."
     " R6: relative-link rewriting keeps #fragment and ?query, and an empty page is harmless. R2 uses the element-provenance analysis (page names come from the directory listing only; the merged list is user order + listing, de-duplicated), R3 compares the directory literals extracted from each site's path expression with each other."
+    " Added after waves 6/7 - the alias of the output root itself is made relative; an ordered_subpage entry keeps its place iff it is in the directory listing."
 )
 ASSUMPTIONS = []
 
@@ -133,6 +134,49 @@ def r2_order(ctx, rep):
         listing_vars |= set(vars_)
         rep.ob("directory listing is sorted", ok, "alphabetical base order independent of the file system" if ok else
                "the directory listing is used in file-system order", py.nloc(c))
+    # which of the user's `ordered_subpage` entries keep their place: exactly those that are in the directory listing - files
+    # *and folders* (the user guide: a subpage "can be another markdown file or a folder"); any further restriction sends
+    # the entry back to its alphabetical position without a word
+    def user_list(e: ast.AST) -> bool:
+        """the user's list itself (or a plain alias of it), not something merged from it"""
+        if isinstance(e, ast.Attribute):
+            return e.attr == "ordered_subpages"
+        if isinstance(e, ast.Name):
+            vals = [v for _s, v in astq.assignments(fn, e.id) if v is not None]
+            return bool(vals) and all(isinstance(v, ast.Attribute) and v.attr == "ordered_subpages" for v in vals)
+        return False
+
+    def listed_atom(var: str):
+        def atom(t):
+            if isinstance(t, ast.Compare) and len(t.ops) == 1 and isinstance(t.ops[0], (ast.In, ast.NotIn)) and \
+                    ast.unparse(t.left) == var and ast.unparse(t.comparators[0]) in listing_vars:
+                return ("listed", isinstance(t.ops[0], ast.In))
+            return None
+        return atom
+    keeps = []
+    for n_ in ast.walk(fn):
+        if isinstance(n_, (ast.ListComp, ast.GeneratorExp)) and len(n_.generators) == 1 and isinstance(n_.generators[0].target, ast.Name) \
+                and user_list(n_.generators[0].iter) and isinstance(n_.elt, ast.Name) and n_.elt.id == n_.generators[0].target.id:
+            g = n_.generators[0]
+            test = g.ifs[0] if len(g.ifs) == 1 else (ast.BoolOp(op=ast.And(), values=list(g.ifs)) if g.ifs else ast.Constant(value=True))
+            keeps.append((g.target.id, [(test, True, {})], n_))
+        if isinstance(n_, ast.For) and isinstance(n_.target, ast.Name) and user_list(n_.iter):
+            for e_ in astq.trace_block(n_.body, fn):
+                if e_.kind == "call" and isinstance(e_.node.func, ast.Attribute) and e_.node.func.attr == "append" and e_.node.args \
+                        and ast.unparse(e_.node.args[0]) == n_.target.id:
+                    keeps.append((n_.target.id, list(e_.conds), e_.node))
+    for var, conds, node_ in keeps:
+        import types as _types
+        ev_ = _types.SimpleNamespace(conds=conds)
+        only_if = astq.path_implies(ev_, listed_atom(var), {"listed": True}) is True
+        # and nothing else: with `listed` true the entry is kept whatever the other tests say
+        free_ok = all(astq.eval_cond(t, listed_atom(var), {"listed": True}) == p for t, p, _ in conds)
+        ok = only_if and free_ok
+        rep.ob("an ordered_subpage entry keeps its place iff it is in the directory listing", ok,
+               "kept exactly when it names an entry of the directory" if ok else
+               f"the entry is kept under `{' and '.join(ast.unparse(t) if p else 'not (' + ast.unparse(t) + ')' for t, p, _ in conds)}`: "
+               f"more than membership in the listing is asked, so e.g. a sub-directory named in `ordered_subpage` is treated as "
+               f"unknown and sorted alphabetically", py.nloc(node_))
     # index.md taken out of the listing
     removed = [c for c in ast.walk(fn) if isinstance(c, ast.Call) and isinstance(c.func, ast.Attribute)
                and c.func.attr in ("remove", "discard") and ast.unparse(c.func.value) in listing_vars and c.args
@@ -283,7 +327,8 @@ def r3_layout_names(ctx, rep):
     cp = [c for c in astq.calls(wo, "copytree") if c.args and "media_dir" in ast.unparse(c.args[0])]
     if not cp:
         raise AnalysisError("Documentation.writeout: copytree(<media_dir>, ...) not found")
-    d_media = _one_literal(py, "media copy destination", astq.path_literals(cp[0].args[1], wo), cp[0])
+    lits = [l for l in astq.path_literals(cp[0].args[1], wo) if l and not l.startswith(".")]
+    d_media = lits[0] if len(lits) == 1 else f"<{ast.unparse(cp[0].args[1])}>"       # not a fixed directory at all
     rep.ob("media is copied to the directory the |media| alias names", d_media == a_media,
            f"<out>/{d_media}" if d_media == a_media else f"media_dir is copied to <out>/{d_media} but |media| expands to "
            f"<project_url>/{a_media}: every |media| link is dead", py.nloc(cp[0]))
